@@ -212,10 +212,11 @@ class CoverpointModel(CoverItemBase):
         """Called by a bin to signal that an uncovered bin has been covered"""
         self.coverage_calc_valid = False
         if bin_type == CoverpointBinType.Bins:
-            if bin_idx in self.unhit_s:
+            self.hit_l[bin_idx] += 1
+            # A bin is covered once it has been hit 'at_least' times
+            if bin_idx in self.unhit_s and self.hit_l[bin_idx] >= self.options.at_least:
                 self.parent.coverage_ev(self, bin_idx)
                 self.unhit_s.remove(bin_idx)
-            self.hit_l[bin_idx] += 1
             self.coverage_calc_valid = False
         elif bin_type == CoverpointBinType.Ignore:
             self.hit_ignore_l[bin_idx] += 1
